@@ -15,18 +15,20 @@ RULE = ("numdrive: every 'way of writing the number' (boundary set per configura
         "(via container/heap), whole (priority,index,handle) array and capacity compared after every operation; runs of "
         "StartInFlightTimeout/TouchMessage/FinishMessage/RequeueMessage/StartDeferredTimeout/processInFlightQueue(t)/processDeferredQueue(t) on real "
         "channels (periodic scan parked) with t on both sides of every deadline, both heaps and both maps compared after every operation; scans of "
-        "larger real heaps; TOUCH near the cap. Every case is non-trivial by construction; distinct = distinct case terms.")
+        "larger real heaps; TOUCH near the cap; calls of the real util.UniqRands (queueScanLoop's channel selection: distinct, in range, all channels when "
+        "there are no more than the selection count). Every case is non-trivial by construction; distinct = distinct case terms.")
 TRUSTED = [
     "modelled, not verified: time.Now / time.Time arithmetic (one integer clock; wall-clock steps and the monotonic/wall distinction of newTimeout.Sub are not modelled), "
     "sync.Mutex atomicity of each critical section (the channel machine is sequential: map insert + heap push is one step), Go slice reallocation (capacity tracked as a number), "
     "strconv.ParseInt(s,10,64) (modelled in Deadline.parse_int64 and compared with the live /pub?defer= on every run), encoding/json decoding of IDENTIFY, the TCP tokenizer "
     "(the judge is given the space-delimited field the server saw), the topic messagePump hand-off of a deferred publish (the timer starts when the pump calls PutMessageDeferred)",
     "hooks /repo/nsqd/verif_c04.go and /repo/verifshim/pqueue.go (build tag verif): wrappers that call the real queue/channel functions, dump arrays and maps, run the scan functions with a given t, and move deliveryTS into the past",
-    "which channels a tick of queueScanLoop scans (random selection, worker pool) is NOT modelled: scans are events; lateness <= one scan interval follows only while every tick scans the channel (<= QueueScanSelectionCount channels)",
+    "queueScanLoop: the index selection util.UniqRands is modelled (ScanPick.v; theorem: with <= QueueScanSelectionCount channels every tick hands every channel to a worker, for every random stream); "
+    "the ticker, the worker pool, the dirty-percentage repeat loop and the cached channel list (refreshed every QueueScanRefreshInterval) are NOT modelled: scans are events with a given t",
 ]
 ASSUMPTIONS = [
     "each mutex-protected section of channel.go is atomic and the (map, heap) pair is updated as one step (C04 'partial'; the fine-grained interleavings belong to C02/C08)",
-    "queueScanLoop scans the channel at least once per scan interval (true for <= 20 channels; otherwise probabilistic) -- the bounded-lateness statement is per scan",
+    "a channel is scanned at least once per scan interval: proved for the index selection when #channels <= QueueScanSelectionCount (C04_tick_selection), assumed for the ticker/worker pool; beyond that count, and for a channel younger than the refresh interval, 'soon after' is probabilistic",
     "0 <= max-req-timeout < MaxInt64 ns and 0 <= max-rdy-count: for max-req-timeout == MaxInt64 exactly, DPUB/defer accept values above it (theorem C04_dpub_edge; reported)",
     "one message object is never pushed on a heap twice (the channel's map check; the model represents a slot by the record it points to)",
 ]
@@ -37,7 +39,9 @@ LEVEL_TEXT = ("Machine-checked proof (Coq 8.16.1, no axioms) over exact executab
               "signs for HTTP); msg_timeout is accepted iff 0 or 1000 <= v <= max; heap order and index back-pointers are preserved by every operation of both queues, Remove(i) "
               "removes exactly entry i; PeekAndShift(t) never returns an entry with priority > t for ANY array content, and on a well-formed heap one scan at t releases exactly the "
               "entries with priority <= t (earliest first) -- lateness bounded by the scan interval; after any sequence of TOUCHes the deadline is min(t_touch+msg_timeout, "
-              "deliveryTS+max-msg-timeout) <= deliveryTS+max-msg-timeout; and the same statements lifted to every history of the sequential channel machine. Tied to the source by "
+              "deliveryTS+max-msg-timeout) <= deliveryTS+max-msg-timeout; the same statements lifted to every history of the sequential channel machine (invariant: both heaps well-formed and in step "
+              "with their maps, no panic; every reachable in-flight deadline <= deliveryTS+max; a scan releases exactly the due messages); and a tick of queueScanLoop selects distinct channels, all of "
+              "them when there are at most QueueScanSelectionCount. Tied to the source by "
               "constants regenerated from nsqd/options.go and by differential correspondence on the real queues, real channels and a live nsqd on every run.")
 LEVEL_NOTE = ("Trusted: Coq kernel + vm_compute; hand-written models (compared with the real code after every operation, sampled); gotables constants; the verif hooks. "
               "Partial: wall-clock behaviour (which channels a tick scans, scheduling delay between deadline and scan) is not modelled -- scans are events with a given t; "
